@@ -248,6 +248,11 @@ func runC11(c *Ctx) {
 				}
 			} else if com.StaticCallee() == ia.load {
 				disp = append(disp, ins)
+			} else if g := com.StaticCallee(); g != fn && c.containsDispatch(g, ia, map[*ssa.Function]bool{}) {
+				// the dispatch was moved into a helper: the call of the helper is the dispatch site
+				if _, isDefer := ins.(*ssa.Defer); !isDefer {
+					disp = append(disp, ins)
+				}
 			}
 		})
 		nd := 0
@@ -278,22 +283,33 @@ func runC11(c *Ctx) {
 	peT := c.typeObj("postscript", "postScriptError")
 	sentinelIsPSE := pointsTo(sentinel.Type().(*types.Pointer).Elem(), peT)
 	var handlerCalls []ssa.CallInstruction
-	for _, call := range staticCalls(fn, fn) {
-		// handler call: the object comes from a lookup in ErrorDict
-		arg := origin(call.Common().Args[1])
-		if ex, ok := arg.(*ssa.Extract); ok {
-			if lk, ok := ex.Tuple.(*ssa.Lookup); ok && isFieldLoad(lk.X, ia.T, "ErrorDict") {
+	// the handler dispatch may live in executeOne itself or in a helper of it: every call of
+	// executeOne in the module whose object comes from a lookup in ErrorDict is one
+	handlerHosts := []*ssa.Function{fn}
+	for _, f := range c.modFuncs {
+		if f != fn {
+			handlerHosts = append(handlerHosts, f)
+		}
+	}
+	for _, host := range handlerHosts {
+		for _, call := range staticCalls(host, fn) {
+			// handler call: the object comes from a lookup in ErrorDict
+			arg := origin(call.Common().Args[1])
+			if ex, ok := arg.(*ssa.Extract); ok {
+				if lk, ok := ex.Tuple.(*ssa.Lookup); ok && isFieldLoad(lk.X, ia.T, "ErrorDict") {
+					handlerCalls = append(handlerCalls, call)
+				}
+			}
+			if lk, ok := arg.(*ssa.Lookup); ok && isFieldLoad(lk.X, ia.T, "ErrorDict") {
 				handlerCalls = append(handlerCalls, call)
 			}
-		}
-		if lk, ok := arg.(*ssa.Lookup); ok && isFieldLoad(lk.X, ia.T, "ErrorDict") {
-			handlerCalls = append(handlerCalls, call)
 		}
 	}
 	if len(handlerCalls) == 0 {
 		c.fail("L2-SENTINEL", fnName, "error-handler dispatch", fn.Pos(), "the error-handler dispatch (lookup in ErrorDict followed by executeOne) was not found")
 	}
 	for _, hc := range handlerCalls {
+		fnName := c.fname(hc.Parent())
 		excluded := !sentinelIsPSE
 		why := "the sentinel is not a *postScriptError, the handler dispatch cannot match it"
 		for _, cd := range domConds(hc.Block()) {
@@ -411,6 +427,9 @@ func runC11(c *Ctx) {
 		c.check(found, "L4-OPSTACK", fnName, "stackoverflow error", fn.Pos(), "returns stackoverflow", "no exit of executeOne reports stackoverflow")
 	}
 
+	// ---------------- L1/L4: no successful step bypasses the gates
+	c.uncountedSuccess(ia, gate)
+
 	// ---------------- L5: growth of the interpreter's own stacks is gated
 	c.stackGrowth(ia)
 
@@ -419,6 +438,120 @@ func runC11(c *Ctx) {
 
 	// ---------------- L7: start check
 	c.startCheck(ia)
+}
+
+// uncountedSuccess: an invocation of executeOne that ends successfully (returns nil) has either
+// executed an object — then it must have passed the operation counter with its budget test and the
+// operand-stack limit test — or it has only collected the object into a procedure body under
+// construction (it wrote the list of open procedure bodies, or found it non-empty).  A path from
+// the entry to a `return nil` that does neither is an execution step that is not counted (a loop of
+// such steps never exhausts the budget) or not limited (a loop that pushes grows the stack without
+// bound).  Decided by a path-sensitive search on the CFG of executeOne.
+func (c *Ctx) uncountedSuccess(ia *interpAnchors, gate *ssa.BasicBlock) {
+	fn := ia.executeOne
+	fnName := c.fname(fn)
+	ei := errIndex(fn.Signature)
+	returnsNil := func(b *ssa.BasicBlock) bool {
+		if len(b.Instrs) == 0 || ei < 0 {
+			return false
+		}
+		r, ok := b.Instrs[len(b.Instrs)-1].(*ssa.Return)
+		if !ok {
+			return false
+		}
+		for _, v := range retValues(r, ei) {
+			if isNilConst(v) {
+				return true
+			}
+		}
+		return false
+	}
+	procStart := c.fld("intp.procStart")
+	collects := func(b *ssa.BasicBlock) bool {
+		for _, ins := range b.Instrs {
+			if st, ok := ins.(*ssa.Store); ok && isFieldAddr(st.Addr, ia.T, procStart) {
+				return true
+			}
+		}
+		k, ok := lowerBoundConst(domConds(b), func(v ssa.Value) bool { return lenOfField(v, ia.T, procStart) })
+		return ok && k >= 1
+	}
+	if gate != nil {
+		avoid := func(b *ssa.BasicBlock) bool { return b == gate || collects(b) }
+		q := &pathQuery{fn: fn, isTarget: func(b *ssa.BasicBlock) bool { return returnsNil(b) && !avoid(b) }, avoid: avoid}
+		if q.search() {
+			last := fn.Blocks[q.witness[len(q.witness)-1]]
+			c.fail("L1-COUNTED", fnName, "every executed object is counted", firstPos(last),
+				"executeOne can return successfully at "+c.pos(firstPos(last))+" (block path "+pathString(q.witness)+") without having passed the operation counter and budget test and without having collected the object into an open procedure body: such a step is executed but not counted, a loop of them never reaches the budget")
+		} else {
+			c.ok("L1-COUNTED", fnName, "every executed object is counted", fn.Pos(), "path-sensitive search: every successful return passed the counter or only collected the object into an open procedure body", "")
+		}
+	}
+	// operand-stack limit test: an If on len(Stack) against a constant one of whose edges reports stackoverflow
+	stackTest := map[*ssa.BasicBlock]bool{}
+	for _, b := range fn.Blocks {
+		ifi, ok := b.Instrs[len(b.Instrs)-1].(*ssa.If)
+		if !ok {
+			continue
+		}
+		m, ok := asCmp(cond{ifi.Cond, true, b})
+		if !ok || !lenOfField(m.x, ia.T, "Stack") && !lenOfField(m.y, ia.T, "Stack") {
+			continue
+		}
+		for _, s := range b.Succs {
+			if c.blockReturnsErr(s) == "stackoverflow" {
+				stackTest[b] = true
+			}
+		}
+	}
+	if len(stackTest) == 0 {
+		c.fail("L4-OPSTACK", fnName, "every successful step passes the operand stack limit", fn.Pos(), "no test of len(Stack) with a stackoverflow exit found in executeOne")
+		return
+	}
+	avoid := func(b *ssa.BasicBlock) bool { return stackTest[b] }
+	q := &pathQuery{fn: fn, isTarget: func(b *ssa.BasicBlock) bool { return returnsNil(b) && !avoid(b) }, avoid: avoid}
+	if q.search() {
+		last := fn.Blocks[q.witness[len(q.witness)-1]]
+		c.fail("L4-OPSTACK", fnName, "every successful step passes the operand stack limit", firstPos(last),
+			"executeOne can return successfully at "+c.pos(firstPos(last))+" (block path "+pathString(q.witness)+") without having tested the operand stack depth: a loop of such steps that pushes grows the operand stack without bound")
+	} else {
+		c.ok("L4-OPSTACK", fnName, "every successful step passes the operand stack limit", fn.Pos(), "path-sensitive search: every successful return passed the len(Stack) test", "")
+	}
+}
+
+// containsDispatch: g (or a module function it calls statically, other than executeOne itself)
+// calls an operator through a function value of the operator signature func(*Interpreter) error,
+// or looks a name up with load: calling g is then a dispatch.
+func (c *Ctx) containsDispatch(g *ssa.Function, ia *interpAnchors, seen map[*ssa.Function]bool) bool {
+	if g == nil || seen[g] || g == ia.executeOne || !c.inModule(g) || len(g.Blocks) == 0 {
+		return false
+	}
+	seen[g] = true
+	found := false
+	eachInstr(g, func(ins ssa.Instruction) {
+		call, ok := ins.(ssa.CallInstruction)
+		if !ok || found {
+			return
+		}
+		com := call.Common()
+		if com.IsInvoke() {
+			return
+		}
+		if sc := com.StaticCallee(); sc != nil {
+			if sc == ia.load || c.containsDispatch(sc, ia, seen) {
+				found = true
+			}
+			return
+		}
+		if _, isB := com.Value.(*ssa.Builtin); isB {
+			return
+		}
+		sig := com.Signature()
+		if sig.Params().Len() == 1 && pointsTo(sig.Params().At(0).Type(), ia.T) && errIndex(sig) == 0 && sig.Results().Len() == 1 {
+			found = true
+		}
+	})
+	return found
 }
 
 // walkGate follows the CFG from block b while conditions are decidable
@@ -794,8 +927,29 @@ func (c *Ctx) startCheck(ia *interpAnchors) {
 		var o outcome
 		o.peeked = -1
 		ev := &ssaEval{c: c, bind: map[ssa.Value]sv{}, mem: map[string]sv{}}
+		// the scanner's primitives are modelled by the call hook: the look-ahead (n int) []byte and the
+		// token reader () (Object, error); every other scanner method (e.g. a comparison helper built on
+		// the look-ahead) is evaluated in place
+		isLookAhead := func(g *ssa.Function) bool {
+			if g == nil || g.Signature.Recv() == nil || !pointsTo(g.Signature.Recv().Type(), sT) {
+				return false
+			}
+			res, par := g.Signature.Results(), g.Signature.Params()
+			if res.Len() != 1 || par.Len() != 1 || res.At(0).Type().String() != "[]byte" {
+				return false
+			}
+			b, ok := par.At(0).Type().Underlying().(*types.Basic)
+			return ok && b.Info()&types.IsInteger != 0
+		}
+		isTokenReader := func(g *ssa.Function) bool {
+			if g == nil || g.Signature.Recv() == nil || !pointsTo(g.Signature.Recv().Type(), sT) {
+				return false
+			}
+			res, par := g.Signature.Results(), g.Signature.Params()
+			return res.Len() == 2 && par.Len() == 0 && strings.HasSuffix(res.At(0).Type().String(), "Object")
+		}
 		ev.noInline = func(g *ssa.Function) bool {
-			return g.Signature.Recv() != nil && pointsTo(g.Signature.Recv().Type(), sT) || g == ia.executeOne
+			return isLookAhead(g) || isTokenReader(g) || g == ia.executeOne
 		}
 		ev.load = func(ld *ssa.UnOp, addr sv) (sv, bool) {
 			a := addr.s
@@ -835,22 +989,25 @@ func (c *Ctx) startCheck(ia *interpAnchors) {
 			if sc == nil {
 				return sv{}, false
 			}
-			if sc.Signature.Recv() != nil && pointsTo(sc.Signature.Recv().Type(), sT) {
-				res := sc.Signature.Results()
-				par := sc.Signature.Params()
-				switch {
-				case res.Len() == 1 && par.Len() == 1 && res.At(0).Type().String() == "[]byte":
-					// the look-ahead
-					if len(args) == 2 && args[1].k == svInt {
+			switch {
+			case isLookAhead(sc):
+				// the look-ahead delivers at most the bytes asked for
+				h := head
+				if len(args) == 2 && args[1].k == svInt {
+					if o.peeked < args[1].i {
 						o.peeked = args[1].i
 					}
-					return sv{k: svString, s: head}, true
-				case res.Len() == 2 && par.Len() == 0 && strings.HasSuffix(res.At(0).Type().String(), "Object"):
-					// the token loop
-					o.loop = true
-					return sv{k: svTuple, tup: []sv{{k: svNil}, symV("EOF")}}, true
+					if int64(len(h)) > args[1].i && args[1].i >= 0 {
+						h = h[:args[1].i]
+					}
+				} else {
+					return sv{}, true
 				}
-				return sv{}, true
+				return sv{k: svString, s: h}, true
+			case isTokenReader(sc):
+				// the token loop
+				o.loop = true
+				return sv{k: svTuple, tup: []sv{{k: svNil}, symV("EOF")}}, true
 			}
 			return sv{}, false
 		}
